@@ -241,7 +241,8 @@ def rand_reshape(r, a):
 
 def run(ctx):
     ctx.level = "proof"
-    res = ctx.prove()
+    # the extraction is a build target of every run: a change of ShapeImpl.v must reach the OCaml model
+    res = ctx.prove(extra_targets=("Extract/ExtractShape.vo",))
     model = pv.build_ocaml("shape")
     impl = pv.build_harness("plain", "shape_drv")
     cases, dist = gen_cases(ctx)
